@@ -58,6 +58,17 @@ FINISH = dict(level="proof",
                    "distinct = distinct op text")
 LAKE_TARGETS = ["SharkVerif.Props.C02", "drv_c02"]
 
+
+# every theorem of these modules is an obligation (Props/C02.lean is the headline file and imports the others)
+PROOF_MODULES = ["SharkVerif.Props.C02", "SharkVerif.Lemmas.LinSolveProps", "SharkVerif.Lemmas.LinSolveBlocked",
+                 "SharkVerif.Lemmas.LinSolveBlockedChol", "SharkVerif.Lemmas.LinSolveCG", "SharkVerif.Lemmas.LinSolveSemi",
+                 "SharkVerif.Lemmas.LinSolvePstrf", "SharkVerif.Lemmas.SolveExpr"]
+
+
+def translate(ctx):
+    """T-C02: Gen/SolveRules.lean from solve.hpp (what every rewrite of a solve / inverse expression does with the tag and the side)"""
+    return ctx.translate("solve_rules.py")
+
 BOUNDARY = [1, 2, 3, 4, 5, 8, 15, 16, 17, 19, 20, 21, 31, 32, 33, 40, 41, 63, 64, 65, 70]
 
 
@@ -409,9 +420,10 @@ def float_tri(r, n, upper, unit, bits=8):
     return A, bits
 
 
-FORMS_ANY = "siabexy"        # every right-hand side kind (x, y: explicit inverse evaluated as a matrix)
+FORMS_ANY = "siabkexy"       # every right-hand side kind (a b: += forms, k: -= form; x, y: explicit inverse evaluated as a matrix)
 FORMS_MAT = "rjpqmn"         # lazily consumed matrix solves: matrix right-hand sides only
 FORMS_TRANS = "tcl"          # trans(solve), column(solve,k), e_i % solve: only where the transpose rewrite compiles
+FORMS_TRANS_ANY = "u"        # trans(inv(At, tag^T)) % B / B % trans(inv(..)): every right-hand side kind, same condition
 TAGS = ["spd", "semi", "lu", "tl", "tu", "tul", "tuu"]
 
 
@@ -426,7 +438,7 @@ def gen_solve(r, n, tag=None, tol=False, form=None, left=None, K=None):
     m = 1 if K == "v" else r.choice([1, 2, 3, 5, 17])
     # forms that go through rows / columns of the explicit inverse (r j x y; p q from the right: X e_k = B (A^-1 e_k))
     # are forward stable only: generated on well-conditioned systems, where the 1e-9 residual bound is sound
-    wc = form in "rjpqxyl"
+    wc = form in "rjpqxylu"
     if wc and tag == "semi":
         n = min(n, 24)
     s = 0
@@ -582,17 +594,56 @@ def gen_cholseq(r, n, tol=False, vclass=None, alpha=None, k=None):
                 cfg=f"{oa}:k{k}:{classes[0]}:a{'1' if a1 == '1' else 'x'}" + ("-float" if tol else ""), vclasses=classes)
 
 
+
+# ---- conjugate gradient: the one system tag with state (epsilon, max_iterations)
+CG_EPS_TIGHT = ["1/1000000000000", "1/10000000000000"]                  # below the default 1e-10
+CG_EPS_ANY = CG_EPS_TIGHT + ["1/100000000", "1/1024", "1/10000000000", "1/1000000"]
+
+
+def cg_spd(r, n, shift=None, bits=8):
+    """symmetric positive definite A = M M^T + shift I (dyadic entries, scale 2^(2 bits)); the shift sets the condition
+    number: about 1 + 4n/(3 shift)"""
+    one = 1 << bits
+    M = [[r.range(-one, one) for _ in range(n)] for _ in range(n)]
+    A = mm(M, tr(M))
+    shift = shift or r.choice([n, max(1, n // 4), 1])
+    for i in range(n):
+        A[i][i] += shift * one * one
+    return A, 2 * bits, shift
+
+
+def gen_cg(r, n, form=None, left=None, K=None, eps=None, maxit=None, tforms=True):
+    """solve with conjugate_gradient(eps, maxit) in one of the forms; right-hand sides are dyadic with row and column
+    1-norms <= 1 (the residual of the product forms is then bounded by eps as well), zero columns with probability 1/10"""
+    left = r.chance(1, 2) if left is None else left
+    oa = r.choice("rc")
+    allmat = FORMS_ANY + FORMS_MAT + (FORMS_TRANS + FORMS_TRANS_ANY if tforms else "")
+    allvec = FORMS_ANY + (FORMS_TRANS_ANY if tforms else "")
+    if K is None:
+        K = r.choice("rc") if (form is not None and form not in allvec) else r.choice(["v", "v", "r", "c"])
+    if form is None:
+        form = r.choice(allvec if K == "v" else allmat)
+    m = 1 if K == "v" else r.choice([1, 2, 3, 5])
+    A, s, shift = cg_spd(r, n)
+    eps = eps or r.choice(CG_EPS_ANY)
+    maxit = r.choice([0, 0, 1, 2, 3, n]) if maxit is None else maxit
+    sb = 8 + max(n, m).bit_length()
+    rows, cols = (n, m) if (left or K == "v") else (m, n)
+    zc = [r.chance(1, 10) for _ in range(m)]
+    def ent(i, j):
+        k = 0 if K == "v" else (j if left else i)
+        return 0 if zc[k] else r.range(-256, 256)
+    B = [[ent(i, j) for j in range(cols)] for i in range(rows)]
+    line = f"solve cg:{eps}:{maxit} {'L' if left else 'R'} {oa} {K} {form} {n} {m} {emit(A, s)} {emit(B, sb)}"
+    kind = "eps-tight" if (maxit == 0 and eps in CG_EPS_TIGHT) else ("eps" if maxit == 0 else ("limit" if maxit < n else "limit-n"))
+    return dict(op=line, kind="tol", n=n, name="cg", form=form, rel=True,
+                cfg=f"{'L' if left else 'R'}{oa}{K}{form}:{kind}:cond{'lo' if shift == n else ('mid' if shift > 1 else 'hi')}")
+
+
 def gen_oracle_only(r, n):
     """conjugate gradient and symmetric eigendecomposition: residual oracle only"""
-    k = r.below(2)
-    oa = r.choice("rc")
-    if k == 0:
-        A, s = float_spd(r, n)
-        left = r.chance(1, 2); K = r.choice(["v", "r", "c"]); m = 1 if K == "v" else r.choice([1, 3])
-        form = r.choice(FORMS_ANY if K == "v" else FORMS_ANY + FORMS_MAT)
-        B = " ".join(("0" if r.chance(1, 10) else str(r.range(-5, 5))) for _ in range(n * m))
-        return dict(op=f"solve cg {'L' if left else 'R'} {oa} {K} {form} {n} {m} {emit(A, s)} {B}",
-                    kind="tol", n=n, name="cg", cfg=f"{'L' if left else 'R'}{oa}{K}{form}")
+    if r.chance(1, 2):
+        return gen_cg(r, n)
     return gen_syev(r, n)
 
 
@@ -690,9 +741,19 @@ def gen_cases(ctx):
     for n in sizes(ctx, r, 25 if q else 0) * (1 if q else 3):
         cases.append(gen_solve(r, n))
     # every form of writing / consuming the solve expression x every system tag x both sides, on every run
-    tforms = FORMS_TRANS if trans_forms_available(ctx) else ""
-    ctx.cov["transposed_solve_forms"] = (f"exercised (t c l), probe level {trans_forms_level(ctx)}" if tforms
+    tforms = (FORMS_TRANS + FORMS_TRANS_ANY) if trans_forms_available(ctx) else ""
+    ctx.cov["transposed_solve_forms"] = (f"exercised (t c l u), probe level {trans_forms_level(ctx)}" if tforms
                                          else "not instantiable in this tree (compile probe): not exercised")
+    # conjugate gradient with NON-DEFAULT parameters in every form x both sides x vector / matrix right-hand side:
+    # a tolerance below the default on systems that need > 15 passes (the residual must reach the requested level),
+    # iteration limits 1..3 (the result must be that iterate), any tolerance on small systems (compared with the exact model)
+    for form in FORMS_ANY + FORMS_MAT + tforms:
+        for left in (True, False):
+            for K in (["v"] if False else (["v", r.choice("rc")] if form in FORMS_ANY + FORMS_TRANS_ANY else [r.choice("rc")])):
+                for rep in range(1 if q else 3):
+                    cases.append(gen_cg(r, r.range(20, 36), form=form, left=left, K=K, eps=r.choice(CG_EPS_TIGHT), maxit=0, tforms=bool(tforms)))
+                    cases.append(gen_cg(r, r.range(3, 10) if rep == 0 else r.range(11, 40), form=form, left=left, K=K, maxit=r.choice([1, 2, 3]), tforms=bool(tforms)))
+                    cases.append(gen_cg(r, r.choice([1, 2, 3, 4, 5, 6, 7, 8]), form=form, left=left, K=K, maxit=r.choice([0, 0, 0, 8]), tforms=bool(tforms)))
     for form in FORMS_ANY + FORMS_MAT + tforms:
         for tag in TAGS:
             for left in (True, False):
@@ -787,7 +848,7 @@ def compare(case, impl, model, blas):
         return "MISMATCH", f"value count differs: {len(vi)} vs {len(vm)}"
     if any(v is None for v in vi):
         return "MISMATCH", "nan/inf in C++ result"
-    scale = max([abs(v) for v in vm] + [Fraction(1)])
+    scale = max([abs(v) for v in vm] + [Fraction(1, 10 ** 30) if case.get("rel") else Fraction(1)])
     worst = max([abs(a - b) for a, b in zip(vi, vm)] + [Fraction(0)])
     if worst > Fraction(1, 10 ** 7) * scale:
         return "MISMATCH", f"toleranced comparison fails: max abs diff {float(worst):.3g} at scale {float(scale):.3g}"
@@ -966,7 +1027,8 @@ def run(ctx):
                     "OpenBLAS/LAPACK bindings are observed through the residual oracle only"]
     ctx.assumptions += ["systems respect the documented preconditions (square, matching sizes; SPD / PSD / full rank as the tag says)",
                         "sqrt is a parameter r of the model with r s * r s = s and r s > 0 for s > 0"]
-    ctx.prove(["SharkVerif.Props.C02"])
+    translate(ctx)
+    ctx.prove(PROOF_MODULES)
     if not ctx.quick:
         ctx.leanchecker(["SharkVerif.Props.C02"])
     exe, exeb = build(ctx)
